@@ -248,6 +248,19 @@ let run_mode () =
     let obs = field "obs" c in
     let status = atom (List.hd (args (field "run" obs))) in
     count "runs";
+    (* round 4: what the values of the history are made of (the verdict does not depend on it) *)
+    (match field_opt "tmode" c with
+     | Some f -> let tm = int_of_sx (List.hd (args f)) in
+         if tm mod 100 >= 7 then count "runs_with_commit_dates_in_the_future_or_at_the_ends_of_the_domain";
+         if tm >= 100 then count "runs_with_zone_offsets_author_date_differing_and_odd_names"
+     | None -> ());
+    (match field_opt "twinhashes" obs with
+     | Some f -> count "runs_with_twin_hashes";
+         List.iter (fun t -> match list_of_sx t with
+           | [_; _; k] -> let k = int_of_sx k in
+               count (Printf.sprintf "twin_pairs_sharing_%s_hex_digits" (if k >= 8 then "8_or_more" else if k >= 5 then "5_to_7" else "1_to_4"))
+           | _ -> ()) (args f)
+     | None -> ());
     (* roots of the analysed component = Consume calls on an instance that had consumed nothing *)
     let roots = List.length (List.filter (fun r -> int_of_sx (List.nth (args r) 1) < 0) (args (field "log0" obs))) in
     count (Printf.sprintf "runs_with_%s_fresh_starts" (if roots >= 5 then "5plus" else string_of_int roots));
